@@ -22,6 +22,23 @@ func (e *verifEnv) verifAddKeyOracle(i int, online bool) types.Oracle {
 	return o
 }
 
+// verifSigShape: the submitted signature is the harness signature as is, in the legacy V=27/28
+// form, with an arbitrary extra byte appended, or cut to 64 bytes. Only the first two are
+// well-formed signatures an external contract can verify.
+func verifSigShape(sig []byte) ([]byte, bool) {
+	out := append([]byte(nil), sig...)
+	switch rt.Choose("signatureShape", 4) {
+	case 0:
+		return out, true
+	case 1:
+		out[64] += 27
+		return out, true
+	case 2:
+		return append(out, rt.U8("trailingByte")), false
+	}
+	return out[:64], false
+}
+
 // VerifC12BatchConfirm: a batch confirmation is stored only if it carries a signature by the
 // external key registered for the oracle, over the checkpoint of exactly the stored batch it
 // names under this chain's gravity id, and is submitted by that oracle's bridger; at most one
@@ -55,7 +72,7 @@ func VerifC12BatchConfirm() {
 	if err != nil {
 		rt.Assert(false, "harness: checkpoint")
 	}
-	sig := rtsig.SignEth(signed, signer)
+	sig, wellFormed := verifSigShape(rtsig.SignEth(signed, signer))
 	// the message
 	claimed := rt.Choose("claimedOracle", 2)
 	bridgerOf := rt.Choose("bridgerOf", 3)
@@ -78,6 +95,7 @@ func VerifC12BatchConfirm() {
 	rt.Cover("stored")
 	rt.Assert(signer == claimed, "signature was made by the external key registered for the claimed oracle")
 	rt.Assert(what == 0, "signature covers the checkpoint of exactly the named batch under this chain's gravity id")
+	rt.Assert(wellFormed, "the stored signature is a well-formed 65-byte signature")
 	rt.Assert(bridgerOf == claimed, "submitted by that oracle's bridger")
 	rt.Assert(!alreadyConfirmed, "at most one confirmation per oracle and batch")
 	got := e.k.GetBatchConfirm(e.ctx, verifTokenA, 1, verifOracleIdent(claimed).oracle)
@@ -127,7 +145,8 @@ func VerifC12OtherConfirms() {
 	if err != nil {
 		rt.Assert(false, "harness: checkpoint")
 	}
-	sig := hex.EncodeToString(rtsig.SignEth(signed, signer))
+	rawSig, wellFormed := verifSigShape(rtsig.SignEth(signed, signer))
+	sig := hex.EncodeToString(rawSig)
 	claimed := rt.Choose("claimedOracle", 2)
 	bridgerOf := rt.Choose("bridgerOf", 3)
 	bridger := verifOracleIdent(bridgerOf).bridger.String()
@@ -155,6 +174,7 @@ func VerifC12OtherConfirms() {
 	rt.Assert(stored, "accepted confirmation is filed under the signing oracle")
 	rt.Assert(signer == claimed, "signature was made by the external key registered for the claimed oracle")
 	rt.Assert(what == 0, "signature covers the checkpoint of exactly the named object under this chain's gravity id")
+	rt.Assert(wellFormed, "the stored signature is a well-formed 65-byte signature")
 	rt.Assert(bridgerOf == claimed, "submitted by that oracle's bridger")
 	// a second, identical submission is refused
 	rt.Assert(e.k.ConfirmHandler(e.ctx, confirm) != nil, "a duplicate confirmation is refused")
